@@ -152,6 +152,44 @@ static void extract(const O & o, json & out) {
     if constexpr (!B::is_initial) extract<typename B::backend_t>(o.get_backend(), out);
 }
 
+// C06 "bit-identical stored values AT EVERY COORDINATE": look the reloaded field up through its view, not only at its storage
+template <typename B> struct lookup_cmp { static long run(const covfie::field<B> &, const covfie::field<B> &) { return -1; } };
+template <typename In, typename St, template <typename, typename> class Lay>
+static long lookup_compare_layout(const covfie::field<Lay<In, St>> & a, const covfie::field<Lay<In, St>> & b) {
+    using B = Lay<In, St>;
+    constexpr std::size_t N = B::contravariant_input_t::dimensions;
+    auto ext = a.backend().get_configuration();
+    std::size_t total = 1; for (std::size_t k = 0; k < N; ++k) total *= ext[k];
+    typename covfie::field<B>::view_t va(a), vb(b);
+    long bad = 0;
+    for (std::size_t cell = 0; cell < total; ++cell) {
+        typename B::contravariant_input_t::vector_t c; std::size_t r = cell;
+        for (std::size_t k = 0; k < N; ++k) { c[k] = r % ext[k]; r /= ext[k]; }
+        auto x = va.at(c); auto y = vb.at(c);
+        if (std::memcmp(&x, &y, sizeof(std::decay_t<decltype(x)>)) != 0) ++bad;
+    }
+    return bad;
+}
+template <typename In, typename St> struct lookup_cmp<cb::strided<In, St>> { static long run(const covfie::field<cb::strided<In, St>> & a, const covfie::field<cb::strided<In, St>> & b) { return lookup_compare_layout<In, St, cb::strided>(a, b); } };
+template <typename In, typename St> struct lookup_cmp<cb::hilbert<In, St>> { static long run(const covfie::field<cb::hilbert<In, St>> & a, const covfie::field<cb::hilbert<In, St>> & b) { return lookup_compare_layout<In, St, cb::hilbert>(a, b); } };
+template <typename In, typename St, bool U> struct lookup_cmp<cb::morton<In, St, U>> {
+    static long run(const covfie::field<cb::morton<In, St, U>> & a, const covfie::field<cb::morton<In, St, U>> & b) {
+        using B = cb::morton<In, St, U>;
+        constexpr std::size_t N = B::contravariant_input_t::dimensions;
+        auto ext = a.backend().get_configuration();
+        std::size_t total = 1; for (std::size_t k = 0; k < N; ++k) total *= ext[k];
+        typename covfie::field<B>::view_t va(a), vb(b);
+        long bad = 0;
+        for (std::size_t cell = 0; cell < total; ++cell) {
+            typename B::contravariant_input_t::vector_t c; std::size_t r = cell;
+            for (std::size_t k = 0; k < N; ++k) { c[k] = r % ext[k]; r /= ext[k]; }
+            auto x = va.at(c); auto y = vb.at(c);
+            if (std::memcmp(&x, &y, sizeof(std::decay_t<decltype(x)>)) != 0) ++bad;
+        }
+        return bad;
+    }
+};
+
 static bool layers_equal(const json & got, const json & want, json & why) {
     if (got.size() != want.size()) { why = {{"what", "depth"}}; return false; }
     for (std::size_t i = 0; i < got.size(); ++i) {
@@ -195,13 +233,15 @@ struct failing_buf : std::streambuf {
 };
 
 // returns: 0 returned a field, 10 std::exception, 11 other exception
-static int try_load(std::size_t tid, const std::string & bytes, long fail_at, json * layers_out) {
+static int try_load(std::size_t tid, const std::string & bytes, long fail_at, json * layers_out, int mask = 0) {
     int rc = -1;
     dispatch(tid, [&](auto tag) {
         using B = typename decltype(tag)::type;
         try {
             failing_buf fb(bytes, fail_at);
             std::istream is(&fb);
+            if (mask == 1) is.exceptions(std::ios::failbit | std::ios::badbit);      // the caller may have enabled stream exceptions
+            if (mask == 2) is.exceptions(std::ios::eofbit);
             covfie::field<B> f(is);
             if (layers_out) { json l = json::array(); extract<B>(f.backend(), l); *layers_out = l; }
             rc = 0;
@@ -210,12 +250,13 @@ static int try_load(std::size_t tid, const std::string & bytes, long fail_at, js
     return rc;
 }
 
-static std::string outcome_in_child(std::size_t tid, const std::string & bytes, long fail_at) {
+static std::string outcome_in_child(std::size_t tid, const std::string & bytes, long fail_at, int mask = 0) {
     std::cout.flush();
     pid_t p = fork();
     if (p == 0) {
-        alarm(20);
-        int rc = try_load(tid, bytes, fail_at, nullptr);
+        alarm(6);
+        std::set_terminate([] { _exit(71); });
+        int rc = try_load(tid, bytes, fail_at, nullptr, mask);
         _exit(rc);
     }
     int st = 0;
@@ -225,6 +266,7 @@ static std::string outcome_in_child(std::size_t tid, const std::string & bytes, 
     if (rc == 0) return "returned";
     if (rc == 10 || rc == 11) return "threw";
     if (rc == 99) return "valgrind-error";
+    if (rc == 71) return "terminate";
     return "exit-" + std::to_string(rc);      // sanitizer reports exit with 66 / 67
 }
 
@@ -251,6 +293,16 @@ int main(int argc, char ** argv) {
                     if (k < got.size()) d["got"] = got[k]; if (k < want.size()) d["want"] = want[k];
                     mismatch("io/dump-bytes/type" + std::to_string(tid), d);
                 }
+                dispatch(tid, [&](auto tag) {      // lookups through views of the original and of the reloaded field
+                    using B = typename decltype(tag)::type;
+                    try {
+                        auto orig = build<B>(x["layers"]);
+                        std::istringstream is(bytes);
+                        covfie::field<B> re(is);
+                        long bad = lookup_cmp<B>::run(orig, re);
+                        if (bad >= 0) expect_eq("io/reloaded-lookups/type" + std::to_string(tid), bad, 0L, ctx);
+                    } catch (const std::exception &) {}
+                });
                 json loaded;
                 int rc = try_load(tid, bytes, 0, &loaded);
                 expect_eq("io/load-own-dump/type" + std::to_string(tid), rc, 0, ctx);
@@ -306,10 +358,13 @@ int main(int argc, char ** argv) {
                 reader = ft["t2"].get<std::size_t>(); variants.push_back({"read as type " + std::to_string(reader), bytes});
             }
             for (auto & [desc, b] : variants) {
-                std::string o = outcome_in_child(reader, b, fail_at);
-                outcomes[o]++;
-                ++g_checks;
-                if (o != "threw") mismatch("io/fault-" + kind + "/" + o + "/type" + std::to_string(tid), {{"type", tid}, {"valueset", c["v"]}, {"fault", ft}, {"variant", desc}, {"outcome", o}, {"specified", "threw"}});
+                for (int mask = 0; mask < 3; ++mask) {
+                    if (mask != 0 && (g_cases % 4) != 0) continue;        // stream-exception masks on every fourth case
+                    std::string o = outcome_in_child(reader, b, fail_at, mask);
+                    outcomes[o]++;
+                    ++g_checks;
+                    if (o != "threw") mismatch("io/fault-" + kind + "/" + o + "/type" + std::to_string(tid), {{"type", tid}, {"valueset", c["v"]}, {"fault", ft}, {"variant", desc}, {"outcome", o}, {"stream_exception_mask", mask}, {"specified", "threw"}});
+                }
             }
         }
         summary({{"outcomes", outcomes}});
